@@ -140,7 +140,7 @@ def time_evolution_derivatives(
         final_factors = []
 
         repeated_circuit = time_evolution(
-            hamiltonian, time, method="Trotter", n_steps=1
+            hamiltonian, time / n_steps, method="Trotter", n_steps=1
         )
 
         for position in range(n_steps):
